@@ -508,7 +508,7 @@ async fn serve_conn(sh: Arc<Shared>, node: usize, stream: TcpStream, peer: Socke
     let by: CloseBy = 'main: loop {
         tokio::select! {
             cmd = ctl_rx.recv() => match cmd {
-                Some(ConnCmd::Close(k)) => { break 'main cut(&mut wr, k).await; }
+                Some(ConnCmd::Close(k)) => { break 'main cut(&c.lg(), &mut wr, k).await; }
                 Some(ConnCmd::Event(body)) => {
                     let f = Frame::response(-1, op::EVENT, body);
                     if let Some(k) = c.write_job(&mut wr, Job { out: Out::Frame(f), cut: None, reorder: 0, delay_ms: 0, release_held: None }, &mut pending).await {
@@ -536,8 +536,12 @@ async fn serve_conn(sh: Arc<Shared>, node: usize, stream: TcpStream, peer: Socke
             }
         }
     };
+    // the trace entry comes before the connection disappears from `connections()`; a cut by the
+    // mock was already logged (before it was performed)
+    if !matches!(by, CloseBy::MockFin | CloseBy::MockRst) {
+        sh.log(node, conn_id, shard, Ev::Close { by: by.clone() });
+    }
     ns.conns.lock().unwrap().remove(&conn_id);
-    sh.log(node, conn_id, shard, Ev::Close { by: by.clone() });
     match by {
         CloseBy::MockFin if !client_gone => {
             // FIN was sent; drain what the client still sends (tracing it) until it closes, so that
@@ -565,13 +569,16 @@ async fn serve_conn(sh: Arc<Shared>, node: usize, stream: TcpStream, peer: Socke
 }
 
 /// Performs the cut on the write half; the socket itself is closed when both halves are dropped.
-async fn cut(wr: &mut tokio::net::tcp::OwnedWriteHalf, k: CutKind) -> CloseBy {
+async fn cut(lg: &ConnLog, wr: &mut tokio::net::tcp::OwnedWriteHalf, k: CutKind) -> CloseBy {
     match k {
         CutKind::Fin => {
+            // logged BEFORE the act, so that the client's reaction comes later in the trace
+            lg.log(Ev::Close { by: CloseBy::MockFin });
             let _ = wr.shutdown().await;
             CloseBy::MockFin
         }
         CutKind::Rst => {
+            lg.log(Ev::Close { by: CloseBy::MockRst });
             #[allow(deprecated)]
             let _ = wr.as_ref().set_linger(Some(Duration::ZERO));
             CloseBy::MockRst
@@ -579,9 +586,25 @@ async fn cut(wr: &mut tokio::net::tcp::OwnedWriteHalf, k: CutKind) -> CloseBy {
     }
 }
 
+/// What is needed to append to the trace on behalf of one connection.
+struct ConnLog {
+    sh: Arc<Shared>,
+    node: usize,
+    conn_id: u64,
+    shard: u16,
+}
+impl ConnLog {
+    fn log(&self, ev: Ev) {
+        self.sh.log(self.node, self.conn_id, self.shard, ev);
+    }
+}
+
 impl Conn {
     fn log(&self, ev: Ev) {
         self.sh.log(self.node, self.conn_id, self.shard, ev);
+    }
+    fn lg(&self) -> ConnLog {
+        ConnLog { sh: self.sh.clone(), node: self.node, conn_id: self.conn_id, shard: self.shard }
     }
 
     /// Writes (or holds) one job; returns Some(close reason) when the connection has to end.
@@ -622,15 +645,17 @@ impl Conn {
                     self.stalled = true;
                     self.log(Ev::Stalled);
                 }
-                Out::Close(k) => return Some(cut(wr, k).await),
+                Out::Close(k) => return Some(cut(&self.lg(), wr, k).await),
                 Out::Raw(bytes) => {
+                    // logged BEFORE the write: whatever the client does in reaction to these bytes is
+                    // then guaranteed to come later in the trace
+                    self.log(Ev::RawOut { bytes: bytes.clone() });
                     let r = wr.write_all(&bytes).await;
-                    self.log(Ev::RawOut { bytes });
                     if r.is_err() {
                         return Some(CloseBy::Client);
                     }
                     if let Some((_, k)) = job.cut {
-                        return Some(cut(wr, k).await);
+                        return Some(cut(&self.lg(), wr, k).await);
                     }
                 }
                 Out::Frame(f) => {
@@ -639,14 +664,15 @@ impl Conn {
                         Some((off, _)) => off.min(enc.len()),
                         None => enc.len(),
                     };
+                    // logged BEFORE the write (see above)
+                    self.log(Ev::Out { version: f.version, flags: f.flags, stream: f.stream, opcode: f.opcode, body: f.body, written: n });
                     let r = wr.write_all(&enc[..n]).await;
                     let _ = wr.flush().await;
-                    self.log(Ev::Out { version: f.version, flags: f.flags, stream: f.stream, opcode: f.opcode, body: f.body, written: n });
                     if r.is_err() {
                         return Some(CloseBy::Client);
                     }
                     if let Some((_, k)) = job.cut {
-                        return Some(cut(wr, k).await);
+                        return Some(cut(&self.lg(), wr, k).await);
                     }
                     self.sent += 1;
                     // release held replies whose turn has come (in holding order)
@@ -684,7 +710,12 @@ impl Conn {
             op::STARTUP => {
                 let opts = wire::decode_startup(&f.body).unwrap_or_default();
                 self.started = true;
-                self.metadata_id_ext = opts.contains_key("SCYLLA_USE_METADATA_ID");
+                // the extension is in use iff the node advertises it and the client opted in
+                let advertised = {
+                    let sp = self.sh.spec.lock().unwrap();
+                    sp.nodes[self.node].metadata_id_ext.unwrap_or(sp.options.metadata_id_ext)
+                };
+                self.metadata_id_ext = advertised && opts.contains_key("SCYLLA_USE_METADATA_ID");
                 return plain(frame(op::READY, vec![]));
             }
             op::OPTIONS if !self.started => return plain(self.supported(stream)),
@@ -844,7 +875,10 @@ impl Conn {
                 Action::SchemaChange { change, target, keyspace, object } => {
                     reply = Some(frame(op::RESULT, wire::body_result_schema_change(&change, &target, &keyspace, object.as_deref())));
                 }
-                Action::Prepared(p) => reply = Some(self.reply_prepared(stream, ctx.text.as_deref().unwrap_or(""), &p)),
+                Action::Prepared(p) => {
+                    // only a real PREPARE makes the node remember the statement
+                    reply = Some(self.reply_prepared(stream, ctx.text.as_deref().unwrap_or(""), &p, ctx.opcode == op::PREPARE))
+                }
                 Action::RawBody { opcode, body } => reply = Some(frame(opcode, body)),
                 Action::NoReply => reply = Some(Out::Nothing),
                 Action::Garbage(b) => reply = Some(Out::Raw(b)),
@@ -907,7 +941,7 @@ impl Conn {
         }
     }
 
-    fn reply_prepared(&self, stream: i16, text: &str, p: &PreparedSpec) -> Out {
+    fn reply_prepared(&self, stream: i16, text: &str, p: &PreparedSpec, remember: bool) -> Out {
         let t = strip_using_timeout(text);
         let id = if p.id.is_empty() { digest16(t.as_bytes()) } else { p.id.clone() };
         let rid = if p.result_metadata_id.is_empty() {
@@ -921,7 +955,9 @@ impl Conn {
             p.result_metadata_id.clone()
         };
         // the node now has the statement in its cache (under the full text, timeout suffix included)
-        self.ns.prepared.lock().unwrap().insert(id.clone(), text.to_string());
+        if remember {
+            self.ns.prepared.lock().unwrap().insert(id.clone(), text.to_string());
+        }
         let lwt_mask = self.sh.spec.lock().unwrap().options.lwt_mark;
         let body = body_result_prepared(p, &id, if self.metadata_id_ext { Some(&rid) } else { None }, lwt_mask);
         Out::Frame(Frame::response(stream, op::RESULT, body))
@@ -942,7 +978,7 @@ impl Conn {
                     }
                 }
                 let p = self.prepared_spec_for(&text);
-                self.reply_prepared(stream, &text, &p)
+                self.reply_prepared(stream, &text, &p, true)
             }
             op::BATCH => frame(op::RESULT, wire::body_result_void()),
             op::QUERY | op::EXECUTE => {
